@@ -200,8 +200,33 @@ class MappingStorage:
                 return
             raise ValueError("Already packed to a later time")
 
-        self._last_pack = stop
         transactions = self._transactions
+
+        if gc:
+            # Step 0, mark.  Nothing is changed before we know that every
+            # reference can be followed: a pack that fails (KeyError for a
+            # dangling reference) must leave the storage as it was.
+            reachable = set()
+            to_visit = {ZODB.utils.z64}
+            # Objects written after the pack time are not garbage as of
+            # the pack time, whether or not anything refers to them yet.
+            for oid, tid_data in self._data.items():
+                if tid_data.maxKey() > stop:
+                    to_visit.add(oid)
+            while to_visit:
+                oid = to_visit.pop()
+                if oid in reachable:
+                    continue
+                tid_data = self._data[oid]
+                reachable.add(oid)
+                # the record current at the pack time and all later ones
+                old = tid_data.keys(None, stop)
+                for tid in tid_data.keys(old[-1] if old else None):
+                    for ref in referencesf(tid_data[tid]):
+                        if ref not in reachable:
+                            to_visit.add(ref)
+
+        self._last_pack = stop
 
         # Step 1, remove old non-current records
         for oid, tid_data in self._data.items():
@@ -216,32 +241,11 @@ class MappingStorage:
                             del transactions[tid]
 
         if gc:
-            # Step 2, GC.  A simple sweep+copy
-            new_data = BTrees.OOBTree.OOBTree()
-            to_copy = {ZODB.utils.z64}
-            # Objects written after the pack time are not garbage as of
-            # the pack time, whether or not anything refers to them yet.
-            for oid, tid_data in self._data.items():
-                if tid_data.maxKey() > stop:
-                    to_copy.add(oid)
-            while to_copy:
-                oid = to_copy.pop()
-                tid_data = self._data.pop(oid)
-                new_data[oid] = tid_data
-                for pickle in tid_data.values():
-                    for oid in referencesf(pickle):
-                        if oid in new_data:
-                            continue
-                        to_copy.add(oid)
-
-            # Remove left over data from transactions
-            for oid, tid_data in self._data.items():
-                for tid in tid_data:
+            # Step 2, sweep what step 0 did not reach
+            for oid in [oid for oid in self._data if oid not in reachable]:
+                for tid in self._data.pop(oid):
                     if transactions[tid].pack(oid):
                         del transactions[tid]
-
-            self._data.clear()
-            self._data.update(new_data)
 
     # ZODB.interfaces.IStorage
     def registerDB(self, db):
